@@ -172,10 +172,11 @@ func (v *Vue) evaluate(ctx VueContext, nodes []*html.Node, depth int) ([]*html.N
 			if err := v.evalVText(ctx, newNode); err != nil {
 				return nil, err
 			}
-			if err := v.evalVShow(ctx, newNode); err != nil {
+			if _, err := v.evalAttributes(ctx, newNode); err != nil {
 				return nil, err
 			}
-			if _, err := v.evalAttributes(ctx, newNode); err != nil {
+			// v-show last: it hides the element whatever the static and bound styles say
+			if err := v.evalVShow(ctx, newNode); err != nil {
 				return nil, err
 			}
 
